@@ -17,7 +17,8 @@ EXTENDS JaqalExec, Json, IOUtils
 Cases == JsonDeserialize(IOEnv.CASES)
 
 \* site "run_ovr": the program is executed after let substitution under an override dictionary (C03: "let values and
-\* overrides applied"); every other site runs the program as written
+\* overrides applied"); every other site runs the program as written.  Site "run_shared": the program is executed on a
+\* backend object that has executed ANOTHER program before - judged exactly like a run on a fresh backend.
 Ovr(c) == IF "ovr" \in DOMAIN c THEN c.ovr ELSE <<>>
 Tree(c) == ExecTree(c.inp, Ovr(c))
 NQ(c) == LET t == RegTabOf(c.inp, Ovr(c))
@@ -67,7 +68,7 @@ Clauses2(c) ==
       ok == o.cls = "ok"
       vis == VisitsOf(tree)
       shouldRun == disc.accept /\ ~ovl
-      xs == c.site \in {"run", "outparse", "run_ovr"}
+      xs == c.site \in {"run", "outparse", "run_ovr", "run_shared"}
   IN
   \* ---- C16-ish: only JaqalError may escape, and the call terminates
   F("terminates", xs /\ o.cls = "timeout")
@@ -89,7 +90,7 @@ Clauses2(c) ==
                                       o.subs[k].freq[v + 1] # Count(o.subs[k].readouts, v))
         ELSE {})
   \* ---- C03 (subcircuits that are visited at least once)
-  \cup (IF c.site \in {"run", "run_ovr"} /\ valid /\ shouldRun /\ ok /\ Len(o.subs) = Len(disc.pairs)
+  \cup (IF c.site \in {"run", "run_ovr", "run_shared"} /\ valid /\ shouldRun /\ ok /\ Len(o.subs) = Len(disc.pairs)
         THEN UNION { LET ex == ExpectedState(c, k) IN
                      IF ~ex.visited THEN {}
                      ELSE F("exact_repr", ~o.subs[k].exact)
@@ -128,7 +129,8 @@ Clauses2(c) ==
   \* an unnormalised distribution makes the readout sampler itself fail with a non-Jaqal exception
   \cup F("normalised_sampling", c.site = "approx" /\ valid /\ o.cls \notin {"ok", "jaqal_error", "timeout"})
   \* (site "approx": the same program over gate matrices that are unitary to 8 digits only; site "rerun": executed twice)
-  \cup (IF (xs \/ c.site \in {"rerun", "approx"}) /\ ok THEN
+  \* (site "longrun": one outcome recorded 70 000 times - tallies beyond 16 bits)
+  \cup (IF (xs \/ c.site \in {"rerun", "approx", "longrun"}) /\ ok THEN
           F("freq_counts", \E k \in DOMAIN o.subs : \E v \in 0..(2 ^ NQ(c) - 1) :
                               o.subs[k].freq[v + 1] # Count(o.subs[k].readouts, v))
           \cup F("as_str", \E j \in DOMAIN o.readouts : o.readouts[j].str # BitsOf(o.readouts[j].value, NQ(c)))
@@ -164,7 +166,8 @@ Init == i = 1
 Case == /\ i <= Len(Cases)
         /\ i' = i + 1
         /\ LET cl == Clauses2(Cases[i]) IN
-             cl = {} \/ PrintT(<<"V", Cases[i].id, cl, Triggers2(Cases[i])>>)
+             \* (no trigger predicates for the 70 000-iteration run: they unroll the program)
+             cl = {} \/ PrintT(<<"V", Cases[i].id, cl, IF Cases[i].site = "longrun" THEN {} ELSE Triggers2(Cases[i])>>)
 Done == i = Len(Cases) + 1 /\ i' = i + 1 /\ PrintT(<<"DONE", i - 1>>)
 Next == Case \/ Done
 Spec == Init /\ [][Next]_i
